@@ -212,6 +212,74 @@ func runC16(c *core.Ctx) {
 		o.Shape(strings.Contains(src, "ifbestRepr==defaultString{ifnumDefault!=0{parentDict[key]=defaultValue}return}"), "the all-default case")
 		o.Shape(strings.Contains(src, "defaultValue:=pdf.Integer(0)"), "the default rotation is 0")
 	})
+	c.Check("C16-R3", pk+".inheritRotate/default-after-hoist", "when a value other than the default is hoisted into the parent, the children that rely on the default are given an explicit default afterwards (otherwise they inherit the hoisted rotation)", func(o *core.Ob) {
+		fn := c.Prog.Func(pk, "inheritRotate")
+		g := fn.Graph()
+		info := fn.Info()
+		// the default value: a local defined as the constant 0 (pdf.Integer(0)); its representation: a local derived from it
+		var defVal, defRepr types.Object
+		ast.Inspect(fn.Decl.Body, func(n ast.Node) bool {
+			as, ok := n.(*ast.AssignStmt)
+			if !ok || as.Tok != token.DEFINE || len(as.Lhs) != 1 || len(as.Rhs) != 1 {
+				return true
+			}
+			if k, isK := core.IntConst(info, as.Rhs[0]); isK && k == 0 && core.IsNamed(info.TypeOf(as.Rhs[0]), "pdf", "Integer") {
+				defVal = core.ObjOf(info, as.Lhs[0])
+			}
+			if call, ok := ast.Unparen(as.Rhs[0]).(*ast.CallExpr); ok && len(call.Args) == 1 && defVal != nil && core.ObjOf(info, call.Args[0]) == defVal {
+				defRepr = core.ObjOf(info, as.Lhs[0])
+			}
+			return true
+		})
+		if defVal == nil || defRepr == nil {
+			core.Undecided("default rotation value / representation not found")
+		}
+		parent := paramObj(fn, "parentDict")
+		// hoisting stores: parentDict[...] = something other than the default value
+		var hoists []*core.V
+		for _, st := range mapStores(g, parent) {
+			if core.ObjOf(info, st.Value) != defVal {
+				hoists = append(hoists, st.V)
+				o.At(fn.Site(st.Stmt, "hoists a non-default value"))
+			}
+		}
+		o.Require(len(hoists) >= 1, "no value is ever hoisted")
+		// explicit defaults for the children: X.dict[...] = defaultValue in a loop, under a comparison with the default representation
+		var fixes []*core.V
+		for _, v := range g.Vs {
+			as, ok := v.AST.(*ast.AssignStmt)
+			if !ok || len(as.Lhs) != 1 || len(as.Rhs) != 1 || core.ObjOf(info, as.Rhs[0]) != defVal {
+				continue
+			}
+			ix, ok := ast.Unparen(as.Lhs[0]).(*ast.IndexExpr)
+			if !ok || core.ObjOf(info, ix.X) == parent {
+				continue
+			}
+			if sel, isSel := ast.Unparen(ix.X).(*ast.SelectorExpr); !isSel || sel.Sel.Name != "dict" {
+				continue
+			}
+			guarded := g.GuardedBy(v, func(a core.Atom) bool {
+				cmp, isCmp := a.AsCmp()
+				return isCmp && cmp.Op == token.EQL && (core.ObjOf(info, cmp.L) == defRepr || core.ObjOf(info, cmp.R) == defRepr)
+			})
+			if guarded && g.InLoop(v) {
+				fixes = append(fixes, v)
+				o.At(fn.Site(as, "explicit default for a child"))
+			}
+		}
+		o.Count(len(hoists))
+		for _, h := range hoists {
+			okFix := false
+			for _, f := range fixes {
+				if g.PathExists(h, f, nil) {
+					okFix = true
+				}
+			}
+			if !okFix {
+				o.FailAt(fn.Site(h.AST, ""), "%s: after this hoist no child that relies on the default rotation is given an explicit default: such pages inherit the hoisted rotation", c.Prog.Pos(h.AST.Pos()))
+			}
+		}
+	})
 	c.Check("C16-R5", pk+".futureInt/encapsulation", "a pending page number is read only through WhenAvailable: the value field is touched by the future's own methods only", func(o *core.Ob) {
 		pkg := c.Prog.Pkg(pk)
 		n := 0
